@@ -288,9 +288,9 @@ def check_enum(case, rec):
 
 
 SUBS = [
-    Sub("gross_range", lambda tier: gen.with_carrier(gross_case(tier)), check_gross, quick=4000, thorough=80000),
+    Sub("gross_range", lambda tier: gen.with_carrier(gross_case(tier)), check_gross, quick=8000, thorough=80000),
     Sub("gross_range_reject", gross_reject_case, check_gross_reject, quick=600, thorough=8000, quick_shards=1),
-    Sub("valid_range", valid_case, check_valid, quick=3000, thorough=60000),
+    Sub("valid_range", valid_case, check_valid, quick=8000, thorough=60000),
 ]
 ENUMS = [Enum("range_grid", enum_chunks, enum_cases, check_enum,
               describe="gross_range: all fail spans x all suspect spans (or none) over the integer grid {0..4}^2 x {0..4}^2, "
